@@ -159,3 +159,11 @@ V("C07-removed-lock-still-counts","C07",MB+"lock.go","	return inGarbage(metaCurs
 V("C07-expired-lock-ends-search","C07",MB+"lock.go","			if currEpoch > 0 && isExpired(cur, associateID, currEpoch) {\n				continue\n			}","			if currEpoch > 0 && isExpired(cur, associateID, currEpoch) {\n				break\n			}",rule="C07.R5")
 V("C07-engine-deletes-locked","C07","pkg/local_object_storage/engine/inhume.go","		} else if locked {\n			e.log.Warn(\"skip an expired object with lock\",\n				zap.Stringer(\"addr\", addr))\n			continue\n		}","		} else if locked {\n			e.log.Warn(\"skip an expired object with lock\",\n				zap.Stringer(\"addr\", addr))\n		}",rule="C07.R3")
 V("C07-gc-deletes-expired-regular","C07","pkg/local_object_storage/shard/gc.go","		switch typ {\n		case object.TypeTombstone:","		switch typ {\n		case object.TypeTombstone, object.TypeLink:",rule="C07.R4")
+
+V("C14-shard-markgarbage-no-mode-check","C14",SH+"inhume.go","	if s.info.Mode.ReadOnly() {\n		return ErrReadOnlyMode\n	} else if s.info.Mode.NoMetabase() {\n		return ErrDegradedMode\n	}\n\n	inhumed, err := s.metaBase.MarkGarbage(cnr, addrs, mark)","	if s.info.Mode.ReadOnly() && mark == meta.GarbageMarkDefault {\n		return ErrReadOnlyMode\n	} else if s.info.Mode.NoMetabase() {\n		return ErrDegradedMode\n	}\n\n	inhumed, err := s.metaBase.MarkGarbage(cnr, addrs, mark)",rule="C14.R1")
+V("C14-gc-runs-in-readonly","C14",SH+"gc.go","	if s.info.Mode != mode.ReadWrite {\n		return\n	}","	if s.info.Mode != mode.ReadWrite && s.info.Mode != mode.ReadOnly {\n		return\n	}",rule="C14.R1")
+V("C14-metabase-delete-no-ro-check","C14",MB+"delete.go","	} else if db.mode.ReadOnly() {\n		return nil, CountersDiff{}, ErrReadOnlyMode\n	}","	}",rule="C14.R2")
+V("C14-writecache-delete-no-ro-check","C14","pkg/local_object_storage/writecache/delete.go","	if c.readOnly() {\n		return ErrReadOnly\n	}\n","",rule="C14.R2")
+V("C14-flushworker-ignores-mode","C14","pkg/local_object_storage/writecache/flush.go","		if !c.readOnly() {\n			if len(addrs) == 1 {","		if !c.readOnly() || len(addrs) > 1 {\n			if len(addrs) == 1 {",rule="C14.R2")
+V("C14-fstree-delete-no-ro-check","C14","pkg/local_object_storage/blobstor/fstree/fstree.go","func (t *FSTree) Delete(addr oid.Address) error {\n	if t.readOnly {\n		return common.ErrReadOnly\n	}","func (t *FSTree) Delete(addr oid.Address) error {",rule="C14.R2")
+V("C14-metabase-setmode-forgets-mode","C14",MB+"mode.go","	case m.NoMetabase():\n		db.boltDB = nil","	case m.NoMetabase():\n		db.boltDB = nil\n		return nil",rule="C14.R3")
